@@ -174,6 +174,9 @@ func (g *Gen) call(x ssa.Value, cc *ssa.CallCommon, st *State) {
 	} else if ct != nil {
 		pnames = ct.ParamN
 	}
+	if callee == nil && ct != nil && len(pnames) == 0 {
+		pnames = ct.ParamN
+	}
 	vars := map[string]Val{}
 	for i, a := range args {
 		if i < len(pnames) {
@@ -190,11 +193,17 @@ func (g *Gen) call(x ssa.Value, cc *ssa.CallCommon, st *State) {
 		}
 	}
 	// calls through a function-typed parameter use the caller's `callee <param>:` clause
-	if ct == nil && g.c != nil {
+	if g.c != nil && g.c.DynCallee != nil {
 		if p, ok := cc.Value.(*ssa.Parameter); ok {
 			if dc := g.c.DynCallee[p.Name()]; dc != nil {
 				ct = dc
 				cname = "param:" + p.Name()
+			}
+		}
+		if u, ok := cc.Value.(*ssa.UnOp); ok {
+			if dc := g.c.DynCallee[dynFieldName(u)]; dc != nil {
+				ct = dc
+				cname = "field:" + dynFieldName(u)
 			}
 		}
 	}
@@ -282,6 +291,21 @@ func (g *Gen) call(x ssa.Value, cc *ssa.CallCommon, st *State) {
 	// caller-side hints after the call
 	if g.c != nil {
 		for _, cs := range g.c.Calls {
+			if cs.Callee == cname && cs.K == k && cs.Bind != nil {
+				cs.Matched = true
+				for _, li := range g.loops {
+					if li.blocks[g.curBlock] {
+						g.unsup("bind on a call inside a loop")
+					}
+				}
+				for gname, rname := range cs.Bind {
+					if gv, ok := g.params[gname]; ok {
+						if rv, ok := vars[rname]; ok {
+							g.assume(st, eq(gv.S, rv.S))
+						}
+					}
+				}
+			}
 			if cs.Callee == cname && (cs.K == k || cs.K == 0) {
 				henv := g.env(st, g.callScope(vars))
 				henv.old = pre
